@@ -381,6 +381,19 @@ int main(int argc, char** argv) {
       owners_record(w, 2, 0, false, false);
       owners_record(w, 2, 0, true, false);
     }
+    // corpus: islands inside holes that exist only through horizontal joins/splits of the outer polygon (nested frames crossed by
+    // bars, even lattice); the island must hang under the hole, not beside it (stale provisional owner / nested splits)
+    {
+      auto R = [](int64_t l, int64_t t, int64_t r, int64_t b) { return Path64{{l, t}, {r, t}, {r, b}, {l, b}}; };
+      Paths64 s1 = {R(0, 0, 26, 26), R(2, 2, 24, 24), R(6, 6, 20, 20), R(8, 8, 18, 18), R(10, 20, 22, 12), R(6, 16, 22, 12), R(4, 24, 16, 12), R(16, 16, 22, 20)};
+      Paths64 c1 = {R(0, 10, 20, 12)};
+      kf_tree("corpus.tree.island_under_joined_hole", 2, 0, false, false, s1, c1);
+      kf_tree("corpus.tree.island_under_joined_hole", 2, 0, true, false, s1, c1);
+      Paths64 s2 = {R(0, 0, 34, 34), R(2, 2, 32, 32), R(8, 8, 22, 22), R(28, 20, 30, 28), R(12, 4, 14, 10), R(12, 28, 16, 26), R(32, 12, 34, 18)};
+      Paths64 c2 = {R(4, 4, 30, 30), R(6, 6, 28, 28), R(10, 2, 14, 30), R(4, 20, 22, 18), R(8, 30, 26, 26), R(16, 24, 32, 28)};
+      kf_tree("corpus.tree.nested_splits", 2, 0, false, false, s2, c2);
+      kf_tree("corpus.tree.nested_splits", 2, 0, true, false, s2, c2);
+    }
     kf_checksplitowner_recursion();
     kf_recursion_table_violates_splitswf();
   }
